@@ -90,8 +90,8 @@ func runC14(c *fw.Ctx) {
 	steps := c.Pick(60, 150)
 	clockTarget := gen.Base.Add(retention)
 	// model bookkeeping for clause (3)
-	expiredAtFlush := map[string]int64{}   // period end -> data flush count when first seen expired
-	goneFromDisk := map[string]bool{}      // period end -> seen absent from disk after its 10 flushes
+	expiredAtFlush := map[string]int64{} // period end -> data flush count when first seen expired
+	goneFromDisk := map[string]bool{}    // period end -> seen absent from disk after its 10 flushes
 	straddlers := 0
 	flushesSeen := func() int64 { return zenodb.VerifCounts()["flush.start"] }
 	var history []string
